@@ -298,7 +298,12 @@ func c08InfeasibleAfter(M ssa.Instruction) []Edge {
 // c08NilReturnAfter: a Return reachable from just after M without hitting the
 // cut whose error result may be nil there; nil if none.
 func c08NilReturnAfter(M ssa.Instruction, ct *cut) *ssa.Return {
-	fn := M.Parent()
+	return c08NilReturnFrom(M.Block(), instrIndex(M)+1, ct)
+}
+
+// c08NilReturnFrom: the same search starting at instruction index `start` of block b0.
+func c08NilReturnFrom(b0 *ssa.BasicBlock, start int, ct *cut) *ssa.Return {
+	fn := b0.Parent()
 	errIdx := ErrResultIndex(fn.Signature)
 	type state struct{ b, pred *ssa.BasicBlock }
 	visited := map[state]bool{}
@@ -352,7 +357,7 @@ func c08NilReturnAfter(M ssa.Instruction, ct *cut) *ssa.Return {
 			walk(s, b, 0)
 		}
 	}
-	walk(M.Block(), nil, instrIndex(M)+1)
+	walk(b0, nil, start)
 	return bad
 }
 
@@ -470,4 +475,97 @@ func c08LenZeroEdges(fn *ssa.Function, S ssa.Value) []Edge {
 		}
 	}
 	return out
+}
+
+// ---------- success promises persistence ----------
+
+// c08SuccessCut adds the points after which a call to a function in `targets`
+// has succeeded: the nil edge of its error, or the call itself when its error
+// is returned as is.
+func c08SuccessCut(fn *ssa.Function, targets map[*ssa.Function]bool, ct *cut) {
+	for _, call := range Calls(fn, func(string) bool { return true }) {
+		g := StaticCallee(call)
+		if _, isCall := call.(*ssa.Call); !isCall || g == nil || !targets[g] {
+			continue
+		}
+		e := ErrOf(call)
+		if e == nil {
+			continue
+		}
+		ne, _, ifs := NilTests(fn, Aliases(e))
+		if len(ifs) > 0 {
+			ct.Edges(ne...)
+		} else if ErrFlow(call, ErrFlowOpts{}).OK {
+			ct.Instr(call.(ssa.Instruction))
+		}
+	}
+}
+
+// c08Promise is one "a nil error means the tag map is on disk" obligation.
+type c08Promise struct {
+	Fn   *ssa.Function
+	What string      // construct suffix
+	Bad  *ssa.Return // a nil-error return reachable from entry without a successful save (AutoSaveIndex on)
+	Why  string
+}
+
+// c08PersistPromises: for the operations whose success promises that the tag
+// map is persisted — the helper(s) that tag on s.tagResolver (reached from
+// Store.Tag and from Store.Push of a manifest), Store.Untag, and Store.Tag /
+// Store.Push through those helpers — every return with a nil error passes,
+// from function entry, a successful save or the AutoSaveIndex==false edge,
+// whether or not the in-memory map changed on that path (an earlier failed
+// save, or a period with AutoSaveIndex off, may have left the file behind).
+func c08PersistPromises(p *Prog, r *c08Roles) (out []c08Promise, lost []string) {
+	helpers := map[*ssa.Function]bool{}
+	for _, f := range p.FuncsOfPkg(c08Pkg) {
+		if f.Signature.Recv() == nil || r.savers[f] {
+			continue
+		}
+		for _, m := range c08Mutations(f, r) {
+			if call, ok := m.(ssa.CallInstruction); ok && CalleeName(call) == c08nResTag {
+				helpers[f] = true
+			}
+		}
+	}
+	if len(helpers) == 0 {
+		lost = append(lost, "tag helper (method of oci.Store that calls resolver.Memory.Tag on s.tagResolver)")
+	}
+	eval := func(f *ssa.Function, what string, extra func(ct *cut)) {
+		_, off := c08AutoSaveEdges(f, r.store)
+		ct := newCut().Edges(off...)
+		c08SaveSuccessCut(f, r, ct)
+		if extra != nil {
+			extra(ct)
+		}
+		pr := c08Promise{Fn: f, What: what}
+		pr.Bad = c08NilReturnFrom(f.Blocks[0], 0, ct)
+		out = append(out, pr)
+	}
+	for f := range helpers {
+		eval(f, "success-implies-index-saved", nil)
+	}
+	viaHelpers := func(f *ssa.Function) func(ct *cut) {
+		return func(ct *cut) { c08SuccessCut(f, helpers, ct) }
+	}
+	if f := p.Fn(c08Pkg, "Store.Untag"); f == nil {
+		lost = append(lost, "~/content/oci.Store.Untag")
+	} else {
+		eval(f, "success-implies-index-saved", nil)
+	}
+	if f := p.Fn(c08Pkg, "Store.Tag"); f == nil {
+		lost = append(lost, "~/content/oci.Store.Tag")
+	} else if !helpers[f] {
+		eval(f, "success-implies-index-saved", viaHelpers(f))
+	}
+	if f := p.Fn(c08Pkg, "Store.Push"); f == nil {
+		lost = append(lost, "~/content/oci.Store.Push")
+	} else if !helpers[f] {
+		eval(f, "manifest-success-implies-index-saved", func(ct *cut) {
+			c08SuccessCut(f, helpers, ct)
+			_, notManifest, _ := CallTests(f, "~/internal/descriptor.IsManifest", nil)
+			ct.Edges(notManifest...)
+		})
+	}
+	return
 }
